@@ -108,6 +108,23 @@ class Ctx:
         self.broken.append(("proof", where, out[-1500:]))
         return False
 
+    def coqchk(self, module, timeout=1500):
+        """thorough tier: re-check the compiled property file and everything it depends on with the independent
+        checker, and record the axioms it reports"""
+        cmd = ["timeout", str(timeout), "coqchk", "-silent", "-o", "-Q", os.path.join(COQ, "theories"), "Delb", module]
+        self.checker_cmds.append(" ".join(cmd))
+        with coq_lock():
+            p = subprocess.run(cmd, capture_output=True, text=True)
+        out = (p.stdout + p.stderr)
+        self.obligations.append("coqchk:" + module)
+        if p.returncode == 0:
+            self.discharged.append("coqchk:" + module)
+            m = re.search(r"\* Axioms:(.*?)(\n\s*\*|\Z)", out, re.S)
+            self.assumptions.append("coqchk -o %s: axioms: %s" % (module, (m.group(1).strip() if m else "?")[:600]))
+            return True
+        self.broken.append(("coqchk", module, out[-1500:]))
+        return False
+
     # ---------------------------------------------------------------- evaluating model terms
     def coq_eval(self, name, requires, terms, chunk=200, timeout=600):
         """Each term must have type `list N`.  Returns a list of python lists of ints (None on failure)."""
